@@ -199,6 +199,8 @@ class ScriptAction:
                 dev.adjust_part_count(op['n'])
             elif kind == 'offset_cycle':
                 dev.offset_next_cycle_time(op['offset'])
+            elif kind == 'set_cycle':
+                dev.cycle_time = op['ct']           # affects future cycles, not the one in progress
             elif kind == 'rewire':
                 new = w.devs[op['new_up']]
                 ups = dev.upstream
@@ -214,6 +216,17 @@ class ScriptAction:
                     ups.remove(x)
                     dev.set_upstream(ups)
                     out = 'removed:' + x.name
+            elif kind == 'late_path':
+                # a shared group, a path through it and a sink created while the simulation is running; the path
+                # gets its upstream at creation and its downstream afterwards
+                from simprocesd.model.factory_floor import PartHandler, Group, Sink
+                n = len(w.extra)
+                member = PartHandler(name=f'late_member_{n}', cycle_time=op.get('ct', 0.5))
+                grp = Group(f'late_group_{n}', [member])
+                path = grp.get_new_group_path(f'late_path_{n}', [dev])
+                sink = Sink(name=f'late_sink_{n}', upstream=[path])
+                w.extra.extend([member, path, sink])
+                out = path.name
             elif kind == 'env_run':
                 # the user drives the public Environment directly between two simulate() calls
                 w.system.env.run(op['d'])
@@ -387,8 +400,10 @@ def build(spec, bus=None, script=True, system=None, known=None):
         w.rm = rm
         w.system = system
     log.env = w.system.env
+    default_names = bool(spec.get('default_names'))
     for it in spec['items']:
         i, k = it['id'], it['kind']
+        nm = None if default_names else i
         ups = [w.devs[u] if u in w.devs else known[u] for u in it.get('up', [])]
         if k == 'source':
             gen = cls['HGen'](i, it.get('values', [0]), it.get('qualities', [1]), it.get('batch'), log,
@@ -396,11 +411,11 @@ def build(spec, bus=None, script=True, system=None, known=None):
             kw = {}
             if it.get('budget') is not None:
                 kw['starting_parts'] = it['budget']
-            d = Source(name=i, part_generator=gen, cycle_time=it['ct'], **kw)
+            d = Source(name=nm, part_generator=gen, cycle_time=it['ct'], **kw)
         elif k == 'handler':
-            d = PartHandler(name=i, upstream=ups, cycle_time=it['ct'], value=it.get('value', 0))
+            d = PartHandler(name=nm, upstream=ups, cycle_time=it['ct'], value=it.get('value', 0))
         elif k == 'processor':
-            d = cls['HProc'](i, ups, it['ct'], dict(it['res']) if it.get('res') else None,
+            d = cls['HProc'](nm, ups, it['ct'], dict(it['res']) if it.get('res') else None,
                              it.get('wo'), log, i)
             if it.get('ct_script'):
                 d.add_receive_part_callback(CtScript(it['ct_script']))
@@ -413,19 +428,19 @@ def build(spec, bus=None, script=True, system=None, known=None):
                 d.add_shutdown_callback(ShutdownCb(log, i, n))
                 d.add_restored_callback(RestoredCb(log, i, n))
         elif k == 'buffer':
-            d = Buffer(name=i, upstream=ups, minimum_delay=it.get('delay', 0), capacity=it.get('cap'),
+            d = Buffer(name=nm, upstream=ups, minimum_delay=it.get('delay', 0), capacity=it.get('cap'),
                        value=it.get('value', 0))
         elif k == 'gate':
             if it.get('subclass'):
-                d = SubclassGate(i, ups, it['pred'])
+                d = SubclassGate(nm, ups, it['pred'])
             else:
-                d = DecisionGate(name=i, upstream=ups, decider_override=Pred(it['pred']))
+                d = DecisionGate(name=nm, upstream=ups, decider_override=Pred(it['pred']))
         elif k == 'flow':
-            d = PartFlowController(name=i, upstream=ups)
+            d = PartFlowController(name=nm, upstream=ups)
         elif k == 'batcher':
-            d = PartBatcher(name=i, upstream=ups, output_batch_size=it.get('size'))
+            d = PartBatcher(name=nm, upstream=ups, output_batch_size=it.get('size'))
         elif k == 'sink':
-            d = Sink(name=i, upstream=ups, cycle_time=it.get('ct', 0), collect_parts=it.get('collect', False))
+            d = Sink(name=nm, upstream=ups, cycle_time=it.get('ct', 0), collect_parts=it.get('collect', False))
         elif k == 'group':
             kw = {}
             if it.get('inputs'):
@@ -436,7 +451,7 @@ def build(spec, bus=None, script=True, system=None, known=None):
             w.groups[i] = g
             continue
         elif k == 'path':
-            d = w.groups[it['group']].get_new_group_path(i, ups)
+            d = w.groups[it['group']].get_new_group_path(nm, ups)
         elif k == 'maintainer':
             kw = {}
             if it.get('cap') is not None:
